@@ -362,6 +362,19 @@ pub fn single_request_space(thorough: bool, unit: u8) -> Vec<Req3> {
             }
         }
     }
+    // every other unit id (not configured): valid, invalid, unknown and empty requests
+    let mut tx2 = 0x0100u16;
+    for other in 0..=255u8 {
+        if other == unit {
+            continue;
+        }
+        let mut wsr = vec![6u8];
+        wsr.extend_from_slice(&[0, 1, 0x12, 0x34]);
+        for p in [read_pdu(1, 0, 2), read_pdu(3, 0xFFFF, 2), read_pdu(4, 0, 0), wsr, write_multi_pdu(15, 0, 3, 1, &[5]), vec![0x41], vec![]] {
+            tx2 = tx2.wrapping_add(1);
+            v.push((tx2, other, p));
+        }
+    }
     v
 }
 
@@ -887,6 +900,10 @@ fn c08_alphabet(cfg: &ServerCfg) -> Alphabet {
         ("unknown-fc", u, vec![0x11]),
         ("other-unit-read", 99, read_pdu(3, 0, 2)),
         ("other-unit-write", 99, wsr(0, 1)),
+        // the unit ids with a special meaning elsewhere (RTU broadcast, the TCP default): on TCP
+        // they are ordinary unit ids, configured or not
+        ("unit0-write", 0, wsr(1, 7)),
+        ("unit255-read", 255, read_pdu(1, 0, 2)),
         ("observe", u, read_pdu(3, 0, 12)),
     ]
 }
@@ -965,7 +982,7 @@ pub fn check_c08(tier: &str) -> i32 {
         "C08",
         tier,
         "model_checking",
-        "production server session with AuthorizationType::Handler(handler, role): all sequences of <= D requests over an 18-symbol alphabet (eight kinds with two ranges each, malformed, unknown function, unconfigured unit, observing read) x policies (per-function masks, unit/range/index/role predicates, stateful first-only and alternating, the built-in read-only policy) x role strings; the interleaved log of authorization and point-handler calls, the reply bytes and the final application state are compared with the reference server. Second phase: every function at quantities {1, 2, 8, 9, maximum} x starts {0, 5, last possible} under every policy, alone and followed by every other such request. Third phase (real TLS server with authorization, rustls peer): client certificates with roles operator / viewer / ' Operator' x policies that allow exactly one role string (6 spellings)",
+        "production server session with AuthorizationType::Handler(handler, role): all sequences of <= D requests over a 20-symbol alphabet (eight kinds with two ranges each, requests to unit ids 0 and 255, malformed, unknown function, unconfigured unit, observing read) x policies (per-function masks, unit/range/index/role predicates, stateful first-only and alternating, the built-in read-only policy) x role strings; the interleaved log of authorization and point-handler calls, the reply bytes and the final application state are compared with the reference server. Second phase: every function at quantities {1, 2, 8, 9, maximum} x starts {0, 5, last possible} under every policy, alone and followed by every other such request. Third phase (real TLS server with authorization, rustls peer): client certificates with roles operator / viewer / ' Operator' x policies that allow exactly one role string (6 spellings)",
     );
     let thorough = rep.thorough();
     let depth = if thorough { 4 } else { 3 };
@@ -985,11 +1002,20 @@ pub fn check_c08(tier: &str) -> i32 {
                 auth: Some((p.clone(), role.clone())),
                 decode: (0, 0, 0),
             });
+            if ri == 1 {
+                // the same with the handlers mapped at unit ids 0 and 255
+                cfgs.push(ServerCfg {
+                    rtu: false,
+                    units: vec![(0, apps[0].clone()), (255, apps[1].clone())],
+                    auth: Some((p.clone(), role.clone())),
+                    decode: (0, 0, 0),
+                });
+            }
         }
     }
     // RTU framing never carries authorization in production; one TCP config without auth as the
     // differential baseline is part of C01/C02
-    rep.bounds = json!({"sequence_depth": depth, "alphabet": 18, "configs": cfgs.len(), "roles": roles.len()});
+    rep.bounds = json!({"sequence_depth": depth, "alphabet": 20, "configs": cfgs.len(), "roles": roles.len(), "unit_maps": ["{1,2}", "{0,255}"]});
     let st = explore_sequences("C08", &cfgs, depth, "RH", &c08_alphabet);
     rep.phase("sequences", st, json!({"depth": depth, "configs": cfgs.len()}));
     // every function at boundary quantities and positions, alone and followed by one more request
